@@ -865,7 +865,17 @@ impl<'a> GeneratorState<'a> {
                     }
                 }
             },
-            Expr::FunctionCall(expr, params) => self.generate_function_call(expr, params, pos),
+            Expr::FunctionCall(expr, params) => {
+                if second_time {
+                    // High byte of a 16 bits evaluation: the function has already been called
+                    // for the low byte. Calling it again would run it twice
+                    return Err(self.compiler_state.syntax_error(
+                        "Function call in a 16 bits expression. Please use an intermediate 8 bits variable",
+                        pos,
+                    ));
+                }
+                self.generate_function_call(expr, params, pos)
+            }
             Expr::MinusMinus(expr, false) => {
                 let expr_type = self.generate_expr(expr, pos, high_byte, high_byte)?;
                 if !second_time {
